@@ -117,21 +117,22 @@ UNITS_TEXT = " Units (E7): within the functions of this property no two quantiti
 UNITS_TECH = "; unit (dimension) inference over SSA"
 ADD_TEXT = {
  "C01": UNITS_TEXT, "C03": UNITS_TEXT, "C05": UNITS_TEXT, "C12": UNITS_TEXT,
- "C02": UNITS_TEXT + " A startNumber computed from the 'no segment yet' field is stored under a direct test of that field. The offset handed to the timeline generator is computed from the configured availabilityTimeOffset on every successful path.",
+ "C02": UNITS_TEXT + " A startNumber computed from the 'no segment yet' field is stored under a direct test of that field. The offset handed to the timeline generator is computed from the configured availabilityTimeOffset on every successful path. The offset argument of every availability test is the configured offset on every path.",
  "C04": UNITS_TEXT + " Each copy of the number-to-segment mapping refuses numbers below startNumber by a signed test whose failing side is an error exit. Segment-serving calls of the handler lie behind the 'now is before the start time' refusal; the too-early test compares unrounded times.",
  "C06": UNITS_TEXT + " The bounds of the period loop read the window edges and the period duration and nothing else. Comparisons with the period bounds in the timeline cut have the half-open forms; the period numbers are computed from the same whole-second period duration as Period@start.",
+ "C07": " Request-serving code stores nothing into a sync.Map.",
  "C08": " Also: make with a request-controlled size proven non-negative; results of etree lookups that may be nil tested before use (also through a callee); library functions that panic on bad input get no unvalidated request value; function values called out of a map lookup are safe because no entry is deleted.",
  "C09": UNITS_TEXT + " The chunk duration handed to the splitter depends on the segment duration and, of all URL options, on availabilityTimeOffset only.",
- "C10": " All sites that append a chunk to the splitter's result apply the same callbacks to it first (sibling agreement). Every path to a chunk write passes the encryption call or the no-DRM edge.",
- "C11": " The queries of the two regenerated MPDs are cut out of the request's raw query; no time value is re-formatted into them. In the differ's child-list walk the insertion anchor changes on every edge on which the cursor into the new list advances.",
+ "C10": " All sites that append a chunk to the splitter's result apply the same callbacks to it first (sibling agreement). Every path to a chunk write passes the encryption call or the no-DRM edge. The encryptor fails for a representation without encryption data; the licence handler writes nothing after an error answer.",
+ "C11": " The queries of the two regenerated MPDs are cut out of the request's raw query; no time value is re-formatted into them. In the differ's child-list walk the insertion anchor changes on every edge on which the cursor into the new list advances. add/replace/remove operations are written for the added/changed/removed attribute lists respectively.",
  "C13": UNITS_TEXT + " The chunk splitter hands the event boxes of its source segment over to a chunk.",
- "C14": UNITS_TEXT + " The second handed to the traffic-pattern lookup is computed without rounding up or to nearest. The traffic interval is selected by a strict comparison (half-open intervals).",
+ "C14": UNITS_TEXT + " The second handed to the traffic-pattern lookup is computed without rounding up or to nearest. The traffic interval is selected by a strict comparison (half-open intervals). The second handed to the traffic lookup does not depend on the configured start time; each status-code pattern starts from a fresh value.",
  "C15": " The segment scan is reachable from the cache read only through the 'no file found' edge; a field that is not persisted is not derived solely under a test that a persisted field is still unset. Files opened for writing by the metadata writer are truncated. Error results of repository calls below the loader are returned on every non-nil path (ten reviewed exceptions).",
  "C16": UNITS_TEXT + " The instant handed to the segment generator is, on every path, a result of the availability-time function, which rounds up to whole milliseconds.",
- "C18": " Where the parser reads with io.ReadFull/io.ReadAtLeast, io.ErrUnexpectedEOF is recognised.",
+ "C18": " Where the parser reads with io.ReadFull/io.ReadAtLeast, io.ErrUnexpectedEOF is recognised. Inside the parse loop the init flag is only set to true and the chunk record is not replaced as a whole.",
  "C17": " Temporary and final MPD name are joined onto the same directory; removed and created segment files are named by the same sequence-number field.",
  "C19": " The hand-over of segment data to the channel goroutine is a send that cannot be skipped; a get-or-create function returns the object that is in the table.",
- "C20": " A new interval starts at the time of the request that finds the old one elapsed, and the counters are replaced only under a test of request time, reset time and interval. The header counter is the value returned by the Inc call that counted the request; the forwarded client address is not cut at a colon by hand.",
+ "C20": " A new interval starts at the time of the request that finds the old one elapsed, and the counters are replaced only under a test of request time, reset time and interval. The header counter is the value returned by the Inc call that counted the request; the forwarded client address is not cut at a colon by hand. No method reachable from Inc unlocks the mutex explicitly.",
 }
 ADD_TECH = {k: UNITS_TECH for k in ("C01", "C02", "C03", "C04", "C05", "C06", "C09", "C12", "C13", "C14", "C16")}
 for _k, _v in ADD_TEXT.items():
